@@ -42,6 +42,17 @@ Put(st, r) ==
   IN lo \o <<r>> \o hi
 Without(st, i) == SelectSeq(st, LAMBDA x : x.id # i)
 
+(* Configuration = the SEQUENCE of options handed to NewModel:               *)
+(* [kind |-> "pubs", pubs |-> <<..>>] (WithInitialPublication, or resource   *)
+(* initial records; "additive", may occur several times) and [kind |->       *)
+(* "clock"] (a plain resource option).  Whatever the order and grouping, the *)
+(* publications given are the initial publications, exactly as given.        *)
+RECURSIVE PutAll(_, _)
+PutAll(st, rs) == IF rs = <<>> THEN st ELSE PutAll(Put(st, Head(rs)), Tail(rs))
+RECURSIVE ConfPubs(_)
+ConfPubs(opts) == IF opts = <<>> THEN <<>>
+                  ELSE PutAll(ConfPubs(Tail(opts)), IF Head(opts).kind = "pubs" THEN Head(opts).pubs ELSE <<>>)
+
 \* the computed properties of every Create / Update
 Publish(r, now) ==
   LET a == IF r.aud.has THEN FreshAud(r.aud.name) ELSE NoAud
